@@ -187,6 +187,10 @@ static void check_detector(const arr_cmplx& h, const char* pname, double thr, in
     //in half of the streams one call with a wrong frame length is made somewhere before the preamble completes; it is rejected with
     //an exception and is not part of the stream, so nothing that follows may change
     const int reject_before = (r.below(2) == 0 && F > 1) ? int(r.below(uint64_t(std::max(1, pend / F + 1)))) : -1;
+    const bool multi_frame = (r.below(3) == 0);
+    if (multi_frame) {
+        vh::obs_add("detector_streams_fed_several_frames_per_call");
+    }
     for (int f = 0; f < nframes && rep_frame < 0; ++f) {
         if (f == reject_before) {
             const int badlen = (r.below(3) == 0) ? 1 : ((r.coin() ? F - 1 : F + 1));
@@ -202,15 +206,20 @@ static void check_detector(const arr_cmplx& h, const char* pname, double thr, in
                 vh::obs_add("detector_rejected_calls_inside_streams");
             }
         }
-        arr_cmplx fr(F);
-        for (int i = 0; i < F; ++i) {
+        //a third of the streams are fed several frames per call (any multiple of frame_len() is admissible): the reported offset is
+        //then the index inside that call's input
+        const int per_call = multi_frame ? std::min(nframes - f, int(r.range(1, 4))) : 1;
+        arr_cmplx fr(F * per_call);
+        for (int i = 0; i < F * per_call; ++i) {
             fr[i] = x[f * F + i];
         }
         const auto res = det.process(fr);
         if (res.has_value()) {
-            rep_frame = f;
             rep = *res;
+            rep_frame = f + rep.offset / F;   //converted to (frame, offset in frame) of the stream
+            rep.offset = rep.offset % F;
         }
+        f += per_call - 1;
     }
     if (expect_none) {
         vh::obs_add("detector_streams_expecting_silence");
@@ -253,6 +262,48 @@ static void check_detector(const arr_cmplx& h, const char* pname, double thr, in
     }
 }
 
+//finddelay call histories in one thread: a long / loud pair first, then shorter and quieter pairs that pad to the same transform size
+//(what an earlier call left in a work buffer must not decide a later answer)
+static void finddelay_history(vh::Rng& r, int hidx) {
+    const int k = int(r.range(8, 13));
+    const int nfft = 1 << k;
+    const bool cplx = r.coin();
+    const int steps = int(r.range(3, 6));
+    vh::begin_case("finddelay_history", "nfft=%d %s steps=%d", nfft, cplx ? "complex" : "real", steps);
+    for (int st = 0; st < steps; ++st) {
+        int len;
+        double amp;
+        if (st == 0) {
+            len = nfft / 2 - int(r.range(1, 6));
+            amp = std::pow(10.0, r.uni(0, 3));
+        } else {
+            len = std::max(128, nfft / 4 + int(r.range(2, nfft / 8)));
+            amp = std::pow(10.0, r.uni(-3, 0));
+        }
+        const int dmax = len / 4;
+        const int d = (st == 0) ? int(r.range(-5, 5)) : ((r.coin() ? 1 : -1) * int(r.range(dmax / 2, dmax)));
+        int got;
+        if (cplx) {
+            arr_cmplx x = gauss_cmplx(r, len);
+            x *= amp;
+            got = dl::finddelay(x, shift(x, d));
+        } else {
+            arr_real x = gauss_real(r, len);
+            x *= amp;
+            got = dl::finddelay(x, dl::delayseq(x, d));
+        }
+        vh::Hasher h;
+        h.s("fdhist").i(hidx).i(st);
+        vh::count(h.get(), true);
+        vh::obs_add("finddelay_history_calls");
+        if (got != d) {
+            vh::violation(vh::fmt("C18/finddelay/%s/after_other_calls", cplx ? "complex" : "real"),
+                          vh::fmt("call %d of a history (transform size %d): finddelay of a %d-sample pair shifted by %d returned %d", st, nfft, len, d, got));
+            return;
+        }
+    }
+}
+
 int main(int argc, char** argv) {
     vh::init(argc, argv, "C18");
     const bool thorough = vh::g.thorough();
@@ -286,6 +337,16 @@ int main(int argc, char** argv) {
             const int d = int(r.range(-len / 4, len / 4));
             const int fs = int(r.pick(std::vector<int>{1, 7, 1000, 16000, 48000}));
             check_finddelay(len, d, t % 3 == 0, (t % 2) ? 1e9 : r.uni(30, 80), fs, r);
+        }
+    }
+    {
+        const int nh = thorough ? 600 : 64;
+        for (int hidx = 0; hidx < nh; ++hidx) {
+            if (!vh::mine(idx++)) {
+                continue;
+            }
+            vh::Rng r = vh::rng_for("fdhist", hidx);
+            finddelay_history(r, hidx);
         }
     }
     vh::sample("finddelay/gccphat: white signals of 128, 129, 200 samples (thorough: 12 lengths to 1000), every shift in [-len/4, len/4], noiseless and with noise 30..60 dB below, real and complex; longer signals with sampled shifts");
